@@ -58,6 +58,9 @@ func main() {
 	var wg sync.WaitGroup
 	sem := make(chan struct{}, 12)
 	for _, c := range cases {
+		if c.kind == 'Q' {
+			continue
+		}
 		wg.Add(1)
 		sem <- struct{}{}
 		go func(c *kase) {
@@ -67,6 +70,12 @@ func main() {
 		}(c)
 	}
 	wg.Wait()
+	// the concurrent stage on its own, one scenario at a time, so that its goroutines really run side by side
+	for _, c := range cases {
+		if c.kind == 'Q' {
+			runCase(c)
+		}
+	}
 
 	t1 := time.Now()
 	// ---- model
@@ -277,6 +286,8 @@ func runCase(c *kase) {
 		c.dl = []string{"C " + f[1] + " " + dinit + " " + f[3]}
 	case 'T':
 		runTable(c)
+	case 'Q':
+		runConcCase(c)
 	case 'X':
 		t, ops := f[1][0], splitOps(f[2])
 		c.impl = execX(t, ops)
@@ -458,6 +469,8 @@ func judge(c *kase, rep *vh.Report) {
 		}
 	case 'T':
 		judgeTable(c, rep)
+	case 'Q':
+		judgeConc(c, rep)
 	case 'C':
 		t, ops := f[1][0], splitOps(f[3])
 		rep.Case(c.line, len(ops) > 0)
